@@ -1,0 +1,8 @@
+//go:build !verif
+
+package randutil
+
+import "io"
+
+// verifMaybeRead is a no-op unless the module is built with the "verif" tag.
+func verifMaybeRead(io.Reader) bool { return false }
